@@ -43,6 +43,8 @@ func (r *Run) call(st *State, fr *Frame, x *ssa.Call, b *ssa.BasicBlock, idx int
 					name = callee.Name()
 				} else if com.IsInvoke() {
 					name = com.Method.Name()
+				} else {
+					name = dynCalleeName(com.Value) // call of a function-typed variable: its source name
 				}
 				if name == c.Text {
 					env := r.specEnv(st, fr, "inv")
@@ -576,8 +578,53 @@ func (r *Run) havocAllKeepingLocals(st *State, fr *Frame, args []*Val) {
 		}
 		keep = append(keep, saved{b, r.load(st, b.addr, b.t, fr.te)})
 	}
+	// components the contract declares out of reach of unknown callees (an assumption, recorded)
+	preserved := map[string]*Term{}
+	top := fr
+	for top.parent != nil {
+		top = top.parent
+	}
+	if top.spec != nil {
+		for _, c := range top.spec.ClausesOf("preserves") {
+			for _, p := range strings.Split(c.Text, ",") {
+				p = strings.TrimSpace(p)
+				if p == "" {
+					continue
+				}
+				r.note("unknown callees of " + r.fname + " are assumed not to reach " + p + " ('preserves' clause)")
+				for name, t := range st.heap {
+					if name == p || strings.HasPrefix(name, p+".") || strings.HasPrefix(name, p+"#") {
+						preserved[name] = t
+					}
+				}
+			}
+		}
+	}
 	st.havocAll()
+	for name, t := range preserved {
+		st.heap[name] = t
+	}
 	for _, k := range keep {
 		r.store(st, k.b.addr, k.v, fr.te)
 	}
+}
+
+// dynCalleeName gives the source-level name of the variable a dynamically called function value was read from.
+func dynCalleeName(v ssa.Value) string {
+	switch x := v.(type) {
+	case *ssa.UnOp:
+		switch a := x.X.(type) {
+		case *ssa.Alloc:
+			return a.Comment
+		case *ssa.FreeVar:
+			return a.Name()
+		case *ssa.FieldAddr:
+			if st := structOf(a.X.Type()); st != nil {
+				return st.Field(a.Field).Name()
+			}
+		}
+	case *ssa.Parameter:
+		return x.Name()
+	}
+	return ""
 }
